@@ -951,6 +951,74 @@ func (w *c05World) opPodDelete() bool {
 	return true
 }
 
+// opPodRecreatedMerged: a pod that is bound to a reservation is deleted and re-created under the same name, the
+// new incarnation is reserved on the SAME reservation and bound, and the pod handler receives delete + add as one
+// update whose old and new objects carry different uids, both annotated with that reservation. The quantifier
+// ("all sequences of ... pod assume / forget / add / update / delete against reservations") covers this order of
+// cache operations; with a single informer feeding both the scheduler and the handler the new incarnation is
+// normally unknown to the scheduler before the merged event, so this is a cache-level history like
+// opRsvSeenUnbound. What must hold afterwards is decided by the statement alone: only the new incarnation is
+// assigned.
+func (w *c05World) opPodRecreatedMerged() bool {
+	r := w.r
+	var cand []*c05PodSlot
+	for _, s := range w.pods {
+		if s.operating || s.cur == nil || s.delivered == nil || len(s.queue) != 0 || s.cur.UID != s.delivered.UID || w.inFlight(s.cur.UID) != nil {
+			continue
+		}
+		rUID := w.fact[s.cur.UID]
+		if rUID == "" || !w.live[rUID] || s.delivered.Spec.NodeName == "" || c05PodTerminated(s.delivered) {
+			continue
+		}
+		ri := w.cache.reservationInfos[rUID]
+		if ri == nil || ri.Reservation == nil || c05AllocateOnce(ri.Reservation) || ri.IsTerminating() || !ri.IsAvailable() {
+			continue
+		}
+		cand = append(cand, s)
+	}
+	if len(cand) == 0 {
+		return false
+	}
+	s := kit.Pick(r, cand)
+	old := s.delivered
+	rUID := w.fact[old.UID]
+	ri := w.cache.reservationInfos[rUID]
+	// the new incarnation
+	np := old.DeepCopy()
+	np.UID = w.newUID("p")
+	np.Spec.NodeName = ""
+	np.Status.Phase = corev1.PodPending
+	np.DeletionTimestamp = nil
+	delete(np.Annotations, apiext.AnnotationReservationAllocated)
+	if r.Bool() {
+		np.Spec.Containers = c05Containers(r, c05GenRequests(r, []int{80, 65, 25, 10}))
+	}
+	req := c05PodRequests(np)
+	var assigned []types.UID
+	for p := range ri.AssignedPods {
+		assigned = append(assigned, p)
+	}
+	if !w.fitsShadow(ri.Reservation, assigned, req) {
+		return false
+	}
+	s.gen++
+	if err := w.cache.assumePods(rUID, []*corev1.Pod{np.DeepCopy()}); err != nil {
+		return false
+	}
+	w.assumed[np.UID] = rUID
+	w.reqs[np.UID] = req
+	bound := np.DeepCopy()
+	apiext.SetReservationAllocated(bound, &schedulingv1alpha1.Reservation{ObjectMeta: metav1.ObjectMeta{Name: ri.GetName(), UID: rUID}})
+	bound.Spec.NodeName = ri.GetNodeName()
+	bound.Status.Phase = corev1.PodRunning
+	w.c.Op("api+scheduler: pod %s re-created (%s -> %s), reserved on the same reservation %s and bound; informer(pod handler): merged OnUpdate %s -> %s", old.Name, old.UID, bound.UID, rUID, c05PodStr(old), c05PodStr(bound))
+	w.ph.OnUpdate(old, bound)
+	s.cur, s.delivered = bound.DeepCopy(), bound
+	w.podDelivered(old, bound)
+	w.c.Count("op_pod_recreated_same_reservation_merged_update", 1)
+	return true
+}
+
 // opResync: the informer re-delivers an object it already delivered (periodic resync / an update that
 // changed nothing the handlers look at): OnUpdate(obj, obj).
 func (w *c05World) opResync() bool {
@@ -1114,7 +1182,9 @@ func TestVerifC05Ledger(t *testing.T) {
 			for step := 0; step < nops; step++ {
 				done := false
 				for try := 0; try < 6 && !done; try++ {
-					switch r.Weighted(7, 5, 5, 2, 8, 3, 3, 16, 6, 9, 13, 4, 8, 4, 3, 7, 4, 18, 4, 4) {
+					switch r.Weighted(7, 5, 5, 2, 8, 3, 3, 16, 6, 9, 13, 4, 8, 4, 3, 7, 4, 18, 4, 4, 3) {
+					case 20:
+						done = w.opPodRecreatedMerged()
 					case 19:
 						done = w.opResync()
 					case 18:
